@@ -8,7 +8,7 @@ import "math/rand"
 var frags = []string{
 	"-- ", " --", "--", "-- x --", "-- a/b.txt --", "--  y  --", "-- --", "--  --", "-", " ",
 	"\n", "\n", "\n", "\r\n", "\r", ">", ">", "x", "hello", "\t", "\x00", "\xff", "\xc3\xa9", "-- x --\r", "-- z -- ",
-	" -- w --", "--x --", "-- x--",
+	" -- w --", "--x --", "-- x--", "-- a\\b --", "\\", "-- C:\\d\\f.txt --", "-- -rf --", "-- a- --", "-- - --",
 }
 
 // fragments with Unicode white space (which strings.TrimSpace strips and the byte-wise specification does not model):
